@@ -112,3 +112,43 @@ Section Pipeline.
     intros Hs Hg Hb Hok. unfold encoder_for, marshal_impl. rewrite Hs, Hg, Hb, Hok. reflexivity.
   Qed.
 End Pipeline.
+
+(* ---- the reading side alone, for files of any conforming writer ------------------------
+   The header is laid out as any list of non-empty metadata blocks (application entries next
+   to avro.schema / avro.codec, in any order, later entries winning); the schema document is
+   ANY JSON tree the schema parser accepts (any key order, unknown attributes, named or
+   spelled-out primitives: C14); the target type is any type the builder accepts for the
+   parsed schema; every block payload is a concatenation of arbitrary specification encodings
+   of typed datums that fit the target (any block structure of arrays and maps: C03).  Then
+   ReadFile reads the header, parses the schema, builds that codec and delivers every record. *)
+Require Import Avro.Proofs.ContainerP Avro.Proofs.HeaderGenP.
+
+Section ForeignPipeline.
+  Variable untext : bytes -> option json.
+  Variable decompress : bytes -> option bytes.
+  Variable sync : bytes.
+  Hypothesis Hsync : len sync = 16.
+
+  Theorem foreign_pipeline : forall (mb : list (list entry)) sj j g out c fuel blocks bfuel,
+    Forall block_ok mb ->
+    meta_get (set_blocks [] mb) (b "avro.schema") = Some sj ->
+    untext sj = Some j -> unmarshal j = Some g -> build_top g out = Some c ->
+    Forall (foreign_block_ok (classify g) c fuel (zero_of (top_type out)) decompress) blocks ->
+    (length blocks < bfuel)%nat ->
+    exists h body,
+      read_header (gen_header mb sync ++ concat (map (vb_bytes sync) blocks)) = Some (h, body) /\
+      h_sync h = sync /\ h_meta h = set_blocks [] mb /\
+      reader_codec untext h out = Some c /\
+      read_blocks decompress (rr c fuel (zero_of (top_type out))) (fun _ => None) bfuel sync 0 body
+        = (total blocks, FOk).
+  Proof.
+    intros mb sj j g out c fuel blocks bfuel Hmb Hsj Hj Hg Hb Hbl Hf.
+    exists {| h_meta := set_blocks [] mb; h_sync := sync |}, (concat (map (vb_bytes sync) blocks)).
+    split; [apply header_ok_gen; assumption|]. split; [reflexivity|]. split; [reflexivity|]. split.
+    - unfold reader_codec. cbn [h_meta]. rewrite Hsj, Hj, Hg. exact Hb.
+    - assert (Hb' : build reg_std (classify g) (Some (top_type out)) false = Some c).
+      { revert Hb. unfold build_top. destruct (is_struct (top_type out)); [exact (fun H => H)|discriminate]. }
+      exact (foreign_file_reads reg_std (classify g) (Some (top_type out)) false c Hb' fuel (zero_of (top_type out))
+               decompress sync Hsync blocks bfuel Hbl Hf).
+  Qed.
+End ForeignPipeline.
